@@ -182,7 +182,8 @@ def run(ctx):
         if not name.startswith('_') or name.startswith('__') or name in seen:
             return False
         cs = callers.get(name, set())
-        return bool(cs) and all(owned(c, seen + (name,)) for c in cs)
+        # (a private helper nobody in the class calls is unreachable through the class's own code)
+        return all(owned(c, seen + (name,)) for c in cs)
     for f, ws in sorted(writers.items()):
         ctx.ob('T11', CLS + '.' + f, 'written only by __init__, add and private helpers reachable only from them (every addition goes '
                'through add)', all(owned(x) for x in ws), loc=ci.module.relpath + ':%d' % ci.node.lineno, detail='writers: %s' % sorted(ws))
@@ -247,6 +248,19 @@ def run(ctx):
     for cond, vname, f2 in preds:
         t = txt(cond)
         both = ('sum(%s)' % vname) in t or (('%s[0]' % vname) in t and ('%s[1]' % vname) in t)
+        if not both:
+            # the two components unpacked into locals: `count, entry_bucket = record`
+            cn = {x.id for x in ast.walk(cond) if isinstance(x, ast.Name)}
+            for a_ in ast.walk(f2.node):
+                if isinstance(a_, ast.Assign) and len(a_.targets) == 1 and isinstance(a_.targets[0], ast.Tuple) and \
+                        len(a_.targets[0].elts) == 2 and all(isinstance(x, ast.Name) for x in a_.targets[0].elts) and \
+                        txt(a_.value) == vname and {x.id for x in a_.targets[0].elts} <= cn:
+                    both = True
+            for a_ in ast.walk(f2.node):
+                if isinstance(a_, (ast.For, ast.comprehension)) and isinstance(a_.target, ast.Tuple) and len(a_.target.elts) == 2 and \
+                        isinstance(a_.target.elts[1], ast.Tuple) and len(a_.target.elts[1].elts) == 2 and \
+                        {txt(x) for x in a_.target.elts[1].elts} <= cn:
+                    both = True
         ctx.ob('T7.compact', add.fq, 'a key survives compaction iff count + bucket-at-entry > current bucket (both entry '
                'components enter the predicate)', both, loc=loc(f2, cond), detail=t)
     # identities by construction
@@ -308,7 +322,8 @@ def run(ctx):
         f = prog.func(CLS + '.' + name)
         # decided on values: what the view yields / returns (the last component of a pair) is slot 0 of an entry, however
         # the entry was reached (map[k][0], `for count, _ in map.values()`, `for k, (count, _) in map.items()`)
-        wv, vpaths = paths_of(prog, f, recv=ci)
+        from rules.common import PrivInl as _PInl
+        wv, vpaths = paths_of(prog, f, recv=ci, model=_PInl(prog))
         outs = []
         for pv in vpaths:
             for o in pv.ops:
